@@ -874,7 +874,7 @@ fn main() {
 	if !replay {
 		// eight tasks starting operations on one client at the same instant, on real threads
 		let exe = std::env::current_exe().expect("exe");
-		let rounds = ctx.tier.pick(6_000u64, 100_000).to_string();
+		let rounds = ctx.tier.pick(15_000u64, 200_000).to_string();
 		let out = std::process::Command::new(exe).args(["--sub", "simultaneous", "--rounds", &rounds]).env("VERIF_SEED", ctx.seed.to_string()).output();
 		match out.ok().and_then(|o| String::from_utf8(o.stdout).ok()).and_then(|s| s.lines().find_map(|l| l.strip_prefix("SUBRESULT ").map(|j| j.to_string()))) {
 			Some(j) => {
